@@ -17,6 +17,45 @@ F = 'pym/bob/stringparser.py'
 SP = 'bob.stringparser.StringParser'
 TOK = TupleT(BOOL, STR)          # (is unescaped delimiter, text): model of `_Delim(str)` vs plain `str`
 
+def string_functions(reg):
+    """the documented string functions against their manual entries (manual: 'String substitution' / 'String functions'):
+    false is exactly "", "0" and "false" after stripping white space, case-insensitively; everything else is true."""
+    S = z3.StringSort(); LS = ListT(STR)
+    LOWER = z3.Function('str_lower', S, S); STRIP = z3.Function('str_strip', S, S); REPL = z3.Function('str_replace_all', S, S, S, S)
+    def FALSE(z):
+        c = LOWER(STRIP(z)); return z3.Or(c == z3.StringVal(''), c == z3.StringVal('0'), c == z3.StringVal('false'))
+    tf = lambda b: z3.If(b, z3.StringVal('true'), z3.StringVal('false'))
+    PE = 'bob.errors.ParseError'
+    reg.trusted += ['str.strip() and str.lower() are uninterpreted functions of the string (their Unicode tables are not modelled); str.replace(a, b) likewise']
+    us = []
+    u = Unit(F, 'isFalse', {'val': STR}, 'C17', result=BOOL, pure=True, modifies_ghost=False,
+             ensures=[('false-is-exactly-empty-0-false-after-strip-and-lower', lambda o, n, r: r.z == FALSE(o.val.z))])
+    us.append(u); reg.add(u)
+    u = Unit(F, 'isTrue', {'val': STR}, 'C17', result=BOOL, pure=True, modifies_ghost=False,
+             ensures=[('true-is-everything-else', lambda o, n, r: r.z == z3.Not(FALSE(o.val.z)))])
+    us.append(u); reg.add(u)
+    def argn(k): return lambda o: o.args.len() != k
+    def arity(k): return ('wrong-argument-count-is-rejected', lambda o, n, r: o.args.len() == k)
+    A = lambda o, i: o.args[i].z
+    def fun(name, k, post, note):
+        us.append(Unit(F, name, {'args': LS}, 'C17', result=STR, raises={PE: argn(k)}, modifies_ghost=False,
+                       ensures=[arity(k), post], note=note))
+    fun('funEqual', 2, ('true-iff-equal', lambda o, n, r: r.z == tf(A(o, 0) == A(o, 1))), '$(eq,a,b)')
+    fun('funNotEqual', 2, ('true-iff-different', lambda o, n, r: r.z == tf(A(o, 0) != A(o, 1))), '$(ne,a,b)')
+    fun('funNot', 1, ('true-iff-argument-false', lambda o, n, r: r.z == tf(FALSE(A(o, 0)))), '$(not,a)')
+    fun('funIfThenElse', 3, ('second-if-condition-true-else-third', lambda o, n, r: r.z == z3.If(FALSE(A(o, 0)), A(o, 2), A(o, 1))), '$(if-then-else,c,a,b)')
+    fun('funSubst', 3, ('replaces-every-occurrence-in-the-third-argument', lambda o, n, r: r.z == REPL(A(o, 2), A(o, 0), A(o, 1))), '$(subst,from,to,text)')
+    fun('funStrip', 1, ('strips-the-argument', lambda o, n, r: r.z == STRIP(A(o, 0))), '$(strip,text)')
+    j = z3.Int('fj')
+    def inv_or(cur, old, k, L): return [('iterates-the-arguments', L == old.args.z), ('all-arguments-so-far-false', z3.ForAll([j], z3.Implies(z3.And(0 <= j, j < k), FALSE(list_get(LS, L, j))), patterns=[list_get(LS, L, j)]))]
+    def inv_and(cur, old, k, L): return [('iterates-the-arguments', L == old.args.z), ('all-arguments-so-far-true', z3.ForAll([j], z3.Implies(z3.And(0 <= j, j < k), z3.Not(FALSE(list_get(LS, L, j)))), patterns=[list_get(LS, L, j)]))]
+    def some(o, pred): return z3.Exists([j], z3.And(0 <= j, j < o.args.len(), pred(list_get(LS, o.args.z, j))))
+    us.append(Unit(F, 'funOr', {'args': LS}, 'C17', result=STR, modifies_ghost=False, loops={1: LoopSpec(inv=inv_or)},
+                   ensures=[('true-iff-some-argument-true', lambda o, n, r: r.z == tf(some(o, lambda a: z3.Not(FALSE(a)))))], note='$(or,...) any number of arguments'))
+    us.append(Unit(F, 'funAnd', {'args': LS}, 'C17', result=STR, modifies_ghost=False, loops={1: LoopSpec(inv=inv_and)},
+                   ensures=[('false-iff-some-argument-false', lambda o, n, r: r.z == tf(z3.Not(some(o, FALSE))))], note='$(and,...) any number of arguments'))
+    return us
+
 def build(reg):
     reg.classes[SP] = ClassSpec(SP, {'text': STR, 'index': INT, 'end': INT, 'env': OpaqueT('EnvObj'), 'funs': OpaqueT('Funs'),
                                      'funArgs': OpaqueT('FunArgs'), 'nounset': BOOL})
@@ -124,7 +163,6 @@ def build(reg):
               Watch(F, 'StringParser.getBareVariable', 'bare variable'), Watch(F, 'StringParser.getCommand', 'string function call'),
               Watch(F, 'StringParser.parse', 'fast path'), Watch(F, 'StringLiteral.__init__', 'infix literal: substitution fast path'),
               Watch(F, 'BinaryStrOperator.evalExpression', 'infix string comparison'), Watch(F, 'BinaryBoolOperator.evalExpression', 'infix boolean operator'),
-              Watch(F, 'NotOperator.evalExpression', 'infix not'), Watch(F, 'isFalse', 'boolean interpretation'),
-              Watch(F, 'funEqual', 'eq'), Watch(F, 'funNot', 'not'), Watch(F, 'funOr', 'or'), Watch(F, 'funAnd', 'and'), Watch(F, 'funIfThenElse', 'if-then-else'),
-              Watch(F, 'funSubst', 'subst'), Watch(F, 'funStrip', 'strip')]
+              Watch(F, 'NotOperator.evalExpression', 'infix not')]
+    units += string_functions(reg)
     return units
